@@ -792,6 +792,11 @@ func interpreterCases(pk *packages.Package) map[string]bool {
 }
 
 func c16Consumers(p *Prog, r *Report) {
+	// the scanners act on a decode error where there is one (inverted tests stop at every good instruction and walk on
+	// through garbage) and no test is left without a consequence
+	inBC := func(rel string) bool { return rel == "internal/bytecode" }
+	checkErrorPolarity(p, r, "C16.R4", inBC)
+	checkNoDeadComparisons(p, r, "C16.R4", inBC)
 	// the window a scanner reads for the decoder holds a whole instruction: every raw read that feeds Decode asks for at
 	// least the architectural maximum of 15 bytes (a shorter window truncates long instructions, which then decode as
 	// one-byte pseudo instructions and the scan loses the instruction stream)
